@@ -231,7 +231,7 @@ def validate_runs(scratch, module, cfg, runs, name, max_reject=5, chunk_events=1
     return accepted, rejected, stats
 
 
-def validate_lenient(scratch, module, cfg, runs, name, chunk_events=40000, parallel=6, env=None, timeout=1200):
+def validate_lenient(scratch, module, cfg, runs, name, chunk_events=40000, parallel=6, env=None, timeout=1200, cfg_text=None):
     """Like validate_runs for trace specs that REPORT refused lines (Print <<"@@REFUSED", line, payload>>)
     and go on: one TLC pass per chunk, chunks in parallel.  Returns (refusals, mono, stats) with
     refusals = [(run, idx, event, payload)], mono = [(run, idx)] for @@MONO-MISMATCH lines."""
@@ -262,7 +262,7 @@ def validate_lenient(scratch, module, cfg, runs, name, chunk_events=40000, paral
         e2 = {"VERIF_TRACE": tf}
         e2.update(env or {})
         res = run_tlc(scratch, module, cfg, workers=1, serial=True, heap="6g", env=e2, timeout=timeout,
-                      name="l%s-%d" % (name, ci), allow_violation=True)
+                      name="l%s-%d" % (name, ci), allow_violation=True, cfg_text=cfg_text)
         if res.error_kind is not None:
             m = re.search(r'"@@REJECTED-AT-LINE", (\d+)', res.out)
             where = index[int(m.group(1)) - 1] if m and int(m.group(1)) - 1 < len(index) else None
